@@ -236,6 +236,45 @@ def overload_programs():
     return out
 
 
+def referenz_overload_programs():
+    """an operator overloaded twice for the same types, by value and by Referenz: the Referenz variant is chosen exactly for
+    operands that are assignable (variables, list elements, fields, elements of fields, fields of elements, in any nesting) —
+    `more Referenz parameters first` — and it sees the caller's storage"""
+    H = ('Binde "Duden/Ausgabe" ein.\n'
+         'Wir nennen die Kombination aus\n\tder Zahl x mit Standardwert 0,\neinen Punkt, und erstellen sie so:\n\t"ein Punkt mit x gleich <x>"\n\n'
+         'Wir nennen die Kombination aus\n\tder Punkt Liste punkte mit Standardwert eine leere Punkt Liste,\n\tdem Punkt mitte mit Standardwert ein Punkt mit x gleich 0,\n'
+         'eine Wolke, und erstellen sie so:\n\t"eine Wolke aus <punkte> um <mitte>"\n\n'
+         'Die Funktion addiere_wert mit den Parametern a und b vom Typ Punkt und Punkt, gibt einen Text zurück, macht:\n\tGib "Wert" zurück.\nUnd überlädt den "plus" Operator.\n\n'
+         'Die Funktion addiere_ref mit den Parametern a und b vom Typ Punkt Referenz und Punkt Referenz, gibt einen Text zurück, macht:\n'
+         '\tSpeichere x von a plus x von b in x von a.\n\tGib "Referenz" zurück.\nUnd überlädt den "plus" Operator.\n\n'
+         'Die Funktion betrag_wert mit dem Parameter a vom Typ Punkt, gibt einen Text zurück, macht:\n\tGib "Wert" zurück.\nUnd überlädt den "Betrag" Operator.\n\n'
+         'Die Funktion betrag_ref mit dem Parameter a vom Typ Punkt Referenz, gibt einen Text zurück, macht:\n\tSpeichere 0 minus x von a in x von a.\n\tGib "Referenz" zurück.\nUnd überlädt den "Betrag" Operator.\n\n'
+         'Die Funktion neuer_punkt gibt einen Punkt zurück, macht:\n\tGib ein Punkt mit x gleich 5 zurück.\nUnd kann so benutzt werden:\n\t"ein frischer Punkt"\n\n')
+    V = ('Die Punkt Liste ps ist eine Liste, die aus (ein Punkt mit x gleich 1), (ein Punkt mit x gleich 2) besteht.\n'
+         'Die Wolke w ist eine Wolke aus ps um (ein Punkt mit x gleich 3).\nDie Wolke Liste ws ist eine Liste, die aus w besteht.\nDer Punkt q ist ein Punkt mit x gleich 10.\nDer Punkt p ist ein Punkt mit x gleich 4.\n')
+    # (operand, read-back expression of its x, x before, assignable)
+    forms = [("p", "x von p", 4, True), ("(ps an der Stelle 1)", "x von (ps an der Stelle 1)", 1, True), ("(mitte von w)", "x von (mitte von w)", 3, True),
+             ("(punkte von w an der Stelle 2)", "x von (punkte von w an der Stelle 2)", 2, True),
+             ("(punkte von (ws an der Stelle 1) an der Stelle 1)", "x von (punkte von (ws an der Stelle 1) an der Stelle 1)", 1, True),
+             ("(mitte von (ws an der Stelle 1))", "x von (mitte von (ws an der Stelle 1))", 3, True),
+             ("(ein frischer Punkt)", None, 5, False), ("(ein Punkt mit x gleich 7)", None, 7, False)]
+    out = []
+    for i, (e, back, x0, ass) in enumerate(forms):
+        body = "Schreibe (%s plus q) auf eine Zeile.\n" % e
+        exp = "Referenz\n" if ass else "Wert\n"
+        if back:
+            body += "Schreibe (%s) auf eine Zeile.\n" % back
+            exp += "%d\n" % (x0 + 10)
+        out.append(("referenz-overload:binary:%d" % i, H + V + body, exp))
+        body = "Schreibe (der Betrag von %s) auf eine Zeile.\n" % e
+        exp = "Referenz\n" if ass else "Wert\n"
+        if back:
+            body += "Schreibe (%s) auf eine Zeile.\n" % back
+            exp += "%d\n" % (-x0)
+        out.append(("referenz-overload:unary:%d" % i, H + V + body, exp))
+    return out
+
+
 def span_stage(res, harness, model, rng, quick, st):
     """which tokens the parser binds to which placeholder name: FuncCall.Args against DDP.AliasMatch"""
     from .. import aliasspans as A
@@ -413,7 +452,7 @@ def check(res, tier):
     # (2b) argument spans and binding by name
     span_stage(res, harness, model, rng, quick, st)
     # (3) fixed programs, operator overloads over aliases and type definitions
-    fixed_all = FIXED + overload_programs()
+    fixed_all = FIXED + overload_programs() + referenz_overload_programs()
     fixed = pipeline.farm(ddp, [({"main.ddp": s}, pipeline.Config(opt=1), {}) for _, s, _ in fixed_all])
     for (name, src, want), r in zip(fixed_all, fixed):
         res.evaluations += 1
